@@ -517,7 +517,7 @@ class TermCtx:
                         tmap[tp["n"]] = self.nttp_map[a]
                     elif a.replace("_", "").isalnum():
                         if a in self.cap_names:
-                            tmap[tp["n"]] = var("cap(%s)" % self.this_name, "st")
+                            tmap[tp["n"]] = canonical("cap", self.this_name, self)
                         else:
                             tmap[tp["n"]] = var(a, "st")
         return rq, tmap
@@ -584,6 +584,7 @@ def unk(e):
 
 def to_term(e, ctx):
     """Convert an AST expression into a term (never raises; unmodelled parts become ('unk', text))."""
+    _CUR["ctx"] = ctx
     if e is None:
         return ("unk", "<null>")
     k = e.get("k")
@@ -613,7 +614,7 @@ def to_term(e, ctx):
             if n in ctx.nttp_map:
                 return ctx.nttp_map[n]
             if n in ctx.cap_names:
-                return var("cap(%s)" % ctx.this_name, "st")
+                return canonical("cap", ctx.this_name, ctx)
             s = sort_of_type(e.get("ty", "")) or "u"
             return var(n, "st" if s == "u" else s)
         if d in ("var", "depscope", "unresolved", "enum"):
@@ -627,7 +628,7 @@ def to_term(e, ctx):
         b = e.get("b")
         if e.get("dk") == "field" or (e.get("dep") and not e.get("targs")):
             if astx.is_this(b) and e["n"] in ctx.plain_size_fields:
-                return var("size(%s)" % ctx.this_name, "st")
+                return canonical("size", ctx.this_name, ctx)
             o = ctx.obj(e)
             if o is not None:
                 return var(o, "?")
@@ -788,7 +789,7 @@ def end_of(o, ctx):
 
 def size_of(o, ctx):
     r = getter(o, "size", ctx)
-    return r if r is not None else var("size(%s)" % o, "st")
+    return r if r is not None else canonical("size", o, ctx)
 
 
 def split_targs(s):
@@ -813,8 +814,18 @@ ROLE = {"size": "size", "length": "size", "ssize": "size", "capacity": "cap", "m
 ROLE_SORT = {"size": "st", "cap": "st", "engaged": "b", "index": "st"}
 
 
-def canonical(role, o):
-    return var("%s(%s)" % (role, o), ROLE_SORT[role])
+_CUR = {"ctx": None}
+
+
+def canonical(role, o, ctx=None):
+    ctx = ctx or _CUR["ctx"]
+    name = "%s(%s)" % (role, o)
+    b = getattr(ctx, "builder", None) if ctx is not None else None
+    if b is not None and b.versioning:
+        v = b.versions.get(o, 0)
+        if v:
+            name += "#%d" % v
+    return var(name, ROLE_SORT[role])
 
 
 def getter(o, n, ctx, depth=0):
@@ -823,6 +834,7 @@ def getter(o, n, ctx, depth=0):
     atom of the accessor's role (None when the name has no role)."""
     role = ROLE.get(n)
     db = ctx.db
+    _CUR["ctx"] = ctx
     if db is None or depth > 4:
         return canonical(role, o) if role else None
     rec_q, tmap = ctx.record_of(o)
@@ -855,11 +867,13 @@ def getter(o, n, ctx, depth=0):
             return tmap[e0["n"]]
         return var(e0["n"], "st")
     sub = TermCtx(f, db, this_name=o)
+    sub.builder = getattr(ctx, "builder", None)
     sub.nttp_map = tmap
     sub.depth = depth + 1
     sub.obj_types = dict(ctx.obj_types)
     sub.type_ctx = dict(ctx.type_ctx)
     r = to_term(e, sub)
+    _CUR["ctx"] = ctx
     if has_unknown(r) and role:
         return canonical(role, o)
     return r
